@@ -753,9 +753,9 @@ theorem step_sim (g : Good ds img) (F : Facts ds img) (c : Cfg) (io : IOSt) (c' 
     rw [hs1]
     simp [hs2]
 
-theorem exit_sim (g : Good ds img) (F : Facts ds img) (c : Cfg) (io : IOSt) (code : Word)
+theorem exit_sim_mem (g : Good ds img) (F : Facts ds img) (c : Cfg) (io : IOSt) (code : Word)
     (h : Exit (envOf ds img) c io code) :
-    ∃ s', Am.step (ofImage ds img) (toSt (envOf ds img) c) io = .ok (.exited code s' io) := by
+    ∃ s', Am.step (ofImage ds img) (toSt (envOf ds img) c) io = .ok (.exited code s' io) ∧ s'.mem = c.mem := by
   cases h with
   | svcExit hd ha hc =>
     obtain ⟨f, hf, hb, hft, hstep⟩ := am_step_instr g F c io _ hd rfl
@@ -764,7 +764,13 @@ theorem exit_sim (g : Good ds img) (F : Facts ds img) (c : Cfg) (io : IOSt) (cod
     rw [hstep, hop]
     simp only [opcOf, d_opr, Isa.svc, ha]
     rw [hc]
-    simp
+    refine ⟨{ pc := BitVec.ofNat 32 (f.start + f.size), a := 0#32, b := c.b, o := 0#32, mem := c.mem }, by simp, rfl⟩
+
+theorem exit_sim (g : Good ds img) (F : Facts ds img) (c : Cfg) (io : IOSt) (code : Word)
+    (h : Exit (envOf ds img) c io code) :
+    ∃ s', Am.step (ofImage ds img) (toSt (envOf ds img) c) io = .ok (.exited code s' io) := by
+  obtain ⟨s', h1, _⟩ := exit_sim_mem g F c io code h
+  exact ⟨s', h1⟩
 
 theorem am_step_loaded (P : Prog) (s : St) (io : IOSt) (s' : St) (io' : IOSt)
     (h : Am.step P s io = .ok (.running s' io')) : loaded P s'.mem = true := by
@@ -824,18 +830,18 @@ theorem toSt_boot (ds : List Dir) (img : Image) : toSt (envOf ds img) (bootCfg i
   simp only [toSt, bootCfg, addr_zero]
   rfl
 
-/-- **`IAm` runs are ISA runs.**  If the indexed machine, started at directive 0 of an assembled
+/-- **`IAm` runs are ISA runs** (with the final memory).  If the indexed machine, started at directive 0 of an assembled
     directive list with the image in memory, reaches `OPR SVC` with the exit request, then the ISA
     started on the image bytes exits with the same code and the same I/O. -/
-theorem IAm_refines_Isa (g : Good ds img) (io0 : IOSt) (c : Cfg) (io : IOSt) (code : Word)
+theorem IAm_refines_Isa_mem (g : Good ds img) (io0 : IOSt) (c : Cfg) (io : IOSt) (code : Word)
     (hsteps : Steps (envOf ds img) (bootCfg img) io0 c io) (hexit : Exit (envOf ds img) c io code) :
-    ∃ m j s', Isa.run m (Am.boot img) io0 = .exited code j s' io := by
+    ∃ m j s', Isa.run m (Am.boot img) io0 = .exited code j s' io ∧ s'.mem = c.mem := by
   have F := facts_of_good ds img g
   have hl0 : loaded (ofImage ds img) (bootCfg img).mem = true :=
     Am.assemble_loaded ds img _ g.hp g.hn g.hasm (Am.boot_loaded img.bytes g.hfit)
   obtain ⟨hl, hrun⟩ := steps_run g F _ _ _ _ hsteps hl0
   obtain ⟨n, hn⟩ := hrun 1 0
-  obtain ⟨s', hs'⟩ := exit_sim g F c io code hexit
+  obtain ⟨s', hs', hmem⟩ := exit_sim_mem g F c io code hexit
   have hfin : Am.run (ofImage ds img) (n + 1) (Am.boot img) io0 = .exited code (0 + n + 1) s' io := by
     rw [← toSt_boot ds img, hn]
     unfold Am.run
@@ -844,7 +850,14 @@ theorem IAm_refines_Isa (g : Good ds img) (io0 : IOSt) (c : Cfg) (io : IOSt) (co
     (by simpa [bootCfg] using hl0) rfl
   rw [hfin] at this
   obtain ⟨m, j, hm⟩ := this
-  exact ⟨m, j, s', hm⟩
+  exact ⟨m, j, s', hm, hmem⟩
+
+
+theorem IAm_refines_Isa (g : Good ds img) (io0 : IOSt) (c : Cfg) (io : IOSt) (code : Word)
+    (hsteps : Steps (envOf ds img) (bootCfg img) io0 c io) (hexit : Exit (envOf ds img) c io code) :
+    ∃ m j s', Isa.run m (Am.boot img) io0 = .exited code j s' io := by
+  obtain ⟨m, j, s', h, _⟩ := IAm_refines_Isa_mem g io0 c io code hsteps hexit
+  exact ⟨m, j, s', h⟩
 
 end Sim
 
